@@ -132,8 +132,16 @@ def oracle(ctx, s, ds, qs, case):
                 aliases, pattern, factor, prop, kind = DOC[e["rule"]]
                 base = calc.pressure_base if e["base"] == "tp" else calc.volume_base
                 if kind == "ij":
-                    src = getattr(base, prop)
-                    mem[(e["base"], e["rule"])] = {tuple(k.voigt): np.array(src[k], dtype=float) for k in calc.modulus_keys}
+                    if e["base"] == "tp":
+                        # the (T,V) tensor named by the keyword, converted with the public v2p: independent of how the
+                        # pressure-base dictionary views look their entries up (a view returning the other tensor is C06's
+                        # business in memory, but a *file* holding the other tensor is this property's)
+                        tv = getattr(calc, prop)
+                        mem[(e["base"], e["rule"])] = {tuple(k.voigt): np.array(calc.pressure_base.v2p(np.array(tv[k], dtype=float)), dtype=float)
+                                                      for k in calc.modulus_keys}
+                    else:
+                        src = getattr(base, prop)
+                        mem[(e["base"], e["rule"])] = {tuple(k.voigt): np.array(src[k], dtype=float) for k in calc.modulus_keys}
                 else:
                     mem[(e["base"], e["rule"])] = np.array(getattr(base, prop), dtype=float)
             return mem
